@@ -527,20 +527,26 @@ def rule_H1(prog, fixture=False):
 # =================================================================================================
 # R1 DOCUMENTED-REJECTION: must-pass-through of a live throwing guard, interprocedural
 def _must_reject(prog, f, pred, memo, parm_objs=None, depth=0):
-    """True iff on every path from f's entry to a normal return a live, throwing test accepted by `pred` has been passed on
+    return _reject_analysis(prog, f, pred, memo, parm_objs, depth)[0]
+
+
+def _reject_analysis(prog, f, pred, memo, parm_objs=None, depth=0):
+    """-> (True iff on every path from f's entry to a normal return a live, throwing test accepted by `pred` has been passed on
     its surviving edge - in f itself, or inside a repository function called on that path (closure over the call graph).
-    pred(ctx, cond, pol) decides whether the surviving outcome (cond == pol) is the documented check."""
+    pred(ctx, cond, pol) decides whether the surviving outcome (cond == pol) is the documented check;
+    a predicate (block, index) -> "the check has been passed on every path to this point")"""
     key = (f.usr, tuple(sorted((k, tuple(sorted(v))) for k, v in (parm_objs or {}).items())))
+    never = (lambda loc: False)
     if key in memo:
         return memo[key]
-    memo[key] = False
+    memo[key] = (False, never)
     if depth > 4:
-        return False
+        return (False, never)
     ctx = GuardCtx(prog, f, group_params=False, parm_objs=parm_objs)
     blocks = f.blocks
     nodes = f.nodes
     if not blocks:
-        return False
+        return (False, never)
     edge_ok = {}
     for (b, si, s_, cn, pol) in f.branch_edges():
         tn = nodes.get(b.term) if b.term is not None else None
@@ -598,7 +604,12 @@ def _must_reject(prog, f, pred, memo, parm_objs=None, depth=0):
             if new != IN[bid]:
                 IN[bid] = new
                 changed = True
-    memo[key] = bool(IN.get(f.exit, False))
+    def at(loc):
+        bid, idx = loc
+        if IN.get(bid, False):
+            return True
+        return any(g < idx for g in call_pos.get(bid, []))
+    memo[key] = (bool(IN.get(f.exit, False)), at)
     return memo[key]
 
 
@@ -616,6 +627,13 @@ def _pred_granularity(ctx, c, pol):
             oa = ctx.objs(a0.c[0], ("size", "val"))
             ob = ctx.objs(a0.c[1], ("size", "val"))
             if any(o[0] == "parm" for o in oa) and (("this",) in ob):
+                return True
+        # the same test written with a quotient:  (nx / M) * M == nx,  np * M == nx with np = nx / M
+        if op == "==":
+            oa = ctx.objs(a0, ("size", "val"))
+            ob = ctx.objs(b0, ("size", "val"))
+            has_arith = any(x.k == "BinaryOperator" and x.op in ("*", "/") for x in a0.walk())
+            if has_arith and any(o[0] == "parm" for o in oa) and (("this",) in oa) and any(o[0] == "parm" for o in ob) and ("this",) not in ob:
                 return True
     return False
 
@@ -636,6 +654,36 @@ def _pred_window_length(ctx, c, pol):
         if ("parm", "win") in sz and ("parm", "n") in other:
             return True
     return False
+
+
+def _state_writes_before(prog, f, at, pred, memo, depth):
+    """[(function, node, field)] writes of members of *this at points the rejecting check does not dominate"""
+    out = []
+    cj = prog.classes.get(f.cls) if f.cls else None
+    if cj is None:
+        return out
+    flow = Flow(f, prog)
+    for fld in [x["name"] for x in cj.get("fields", [])]:
+        for (n, _) in _write_sources(f, flow, fld):
+            loc = f.block_of(n)
+            if loc is not None and not at(loc):
+                out.append((f, n, fld))
+    # member functions called on *this before the check: their writes count, unless they validate first themselves
+    for n in f.walk():
+        if n.k != "CXXMemberCallExpr" or not n.callee or n.callee.get("const") or n.callee.get("cls") != f.cls:
+            continue
+        obj = n.call_object()
+        if obj is not None and obj.strip_all().k != "CXXThisExpr":
+            continue
+        loc = f.block_of(n)
+        if loc is None or at(loc) or depth > 1:
+            continue
+        g = prog.functions.get(n.callee.get("usr"))
+        if g is None:
+            continue
+        gflow_at = _reject_analysis(prog, g, pred, memo, None, depth + 1)[1]
+        out += _state_writes_before(prog, g, gflow_at, pred, memo, depth + 1)
+    return sorted(out, key=lambda w: (w[0].file, w[1].line))
 
 
 R1_TABLE = [
@@ -668,6 +716,20 @@ def rule_R1(prog, fixture=False):
             where = "%s:%d" % (prog.rel(f.file), f.line)
             desc = "%s rejects %s" % (f.short, what)
             extra = {"props": [prop]}
+            if ok and prop == "C08":
+                # a rejected frame must leave the converter as it was: no member is written before the check has been passed
+                early = _state_writes_before(prog, f, _reject_analysis(prog, f, pred, memo, pmap)[1], pred, memo, 0)
+                okey = "R1:%s:before-state:%s" % (prop, fkey(f))
+                if early:
+                    w = early[0]
+                    res.add(okey, VIOLATED, "%s:%d" % (prog.rel(w[0].file), w[1].line), "%s rejects before it touches its state" % f.short,
+                            "%s writes member '%s' on a path that has not yet passed the frame-length check: a frame that is then "
+                            "rejected has already been shifted into the converter's state, and the frames accepted afterwards are "
+                            "filtered against it" % (w[1].text()[:80], w[2]), func=f.name, extra=extra,
+                            path=["%s:%d %s" % (prog.rel(x[0].file), x[1].line, x[1].text()[:80]) for x in early[:6]])
+                else:
+                    res.add(okey, DISCHARGED, where, "%s rejects before it touches its state" % f.short,
+                            "no member is written before the frame-length check has been passed", func=f.name, extra=extra)
             if ok:
                 res.add(key, DISCHARGED, where, desc, "a live throwing check lies on every path to a normal return", func=f.name, extra=extra)
             else:
